@@ -15,7 +15,7 @@ RULE = ("families: (A) instruction-level captures: every item sequence of length
         "$or/$not/$and-with-times; (B) operand-level captures: every pair of 'mov' items whose operand lists are drawn "
         "from {&x,&y,rax} (length 1..2), later occurrences inside operand-level $or/$not and in a following instruction; "
         "(C) prefix/extension operands (0x1/0x10, %r8/%r8d) as first, middle and last operand; (D) 11 distinct names "
-        "(back-references \\10, \\11) with every combination of bound values in the checking instruction; (E) register "
+        "(back-references \\10, \\11) with every combination of bound values in the checking instruction; (E) [E4: two family names defined in both orders, with/without a preceding plain capture, names with an inner dot] register "
         "families &genreg/&indreg/&stackreg/&basereg: every (first-suffix, later-suffix) pair from {none,.64,.32,.16,.8h,"
         ".8l,.8H,.8L} x every pair of operands from all family register names plus look-alikes (0x1, %r8, other-family "
         "registers); (F) capture inside $deref fields. Each x EVERY listing of the family's bounded listing set. Oracle: "
@@ -139,8 +139,13 @@ def fam_e(tier):
                     continue
                 rules.append(e1.RuleCase(f"E2/{fam}", [{"mov": [n1, "rsi"]}, {"push": [n2]}], "e_" + fam, want=W))
                 rules.append(e1.RuleCase(f"E3/{fam}", [{"mov": [n1, n2]}], "e2_" + fam, want=W))
-    # two independent family names
-    rules.append(e1.RuleCase("E4", [{"mov": ["&genreg-1.64", "&genreg-2.64"]}, {"mov": ["&genreg-2.32", "&genreg-1.32"]}], "e4", want=W))
+    # two independent family names, defined in both orders and with a plain capture shifting the group numbers, so that
+    # one name owns different group numbers in different rules of the same process; names with an inner dot
+    for n1, n2 in (("&genreg-1", "&genreg-2"), ("&genreg-2", "&genreg-1"), ("&genreg.1", "&genreg.2"), ("&genreg.2", "&genreg.1")):
+        for pre in ([], [{"push": ["&p"]}]):
+            rules.append(e1.RuleCase("E4", pre + [{"mov": [n1 + ".64", n2 + ".64"]}, {"mov": [n2 + ".32", n1 + ".32"]}], "e4", want=W))
+            rules.append(e1.RuleCase("E4", pre + [{"mov": [n1 + ".64", n2 + ".64"]}, {"mov": [n1 + ".32", n2 + ".32"]}], "e4", want=W))
+            rules.append(e1.RuleCase("E4", pre + [{"mov": [n1, n2 + ".64"]}, {"mov": [n1 + ".32", n2 + ".32"]}], "e4", want=W))
     return rules
 
 
@@ -160,10 +165,18 @@ def fam_f(tier):
                 [{"push": ["&r"]}, {"mov": [{"$deref": {"main_reg": "&r"}}]}],
                 [{"push": ["&r"]}, {"mov": [{"$deref": {"main_reg": "&r", "constant_offset": "0x8"}}, "&r"]}]):
         rules.append(e1.RuleCase("F", pat, "f", want=("verdict",)))
+    # two and three capture definitions inside one $deref, in every key order (YAML order != emission order)
+    import itertools as it
+    fields = {"main_reg": "&r", "constant_offset": "&k", "register_multiplier": "&b", "constant_multiplier": 4}
+    for keys in (("main_reg", "constant_offset"), ("main_reg", "constant_offset", "register_multiplier", "constant_multiplier")):
+        for perm in it.permutations(keys):
+            d = {k: fields[k] for k in perm}
+            for later in ({"push": ["&k"]}, {"push": ["&r"]}, {"push": ["&b"]} if "register_multiplier" in keys else {"push": ["&k"]}):
+                rules.append(e1.RuleCase("F2", [{"mov": [{"$deref": d}]}, later], "f", want=("verdict",)))
     return rules
 
 
-ALPHA_F = [("mov", ["0x8(%rax)", "%rax"]), ("mov", ["0x8(%rax)", "%rbx"]), ("mov", ["0x8(%rbx)", "%rbx"]), ("mov", ["(%rax)", "%rax"]),
+ALPHA_F = [("mov", ["0x8(%rax,%rbx,4)", "%rax"]), ("mov", ["0x8(%rax)", "%rax"]), ("mov", ["0x8(%rax)", "%rbx"]), ("mov", ["0x8(%rbx)", "%rbx"]), ("mov", ["(%rax)", "%rax"]),
            ("push", ["%rax"]), ("push", ["%rbx"]), ("push", ["$0x8"]), ("push", ["$8"]), ("mov", ["0x10(%rax)", "%rax"])]
 
 
@@ -188,7 +201,8 @@ def build_lsets(h, tier):
         ls["e_" + fam] = e1.ExplicitListingSet(h, l1)
         ls["e2_" + fam] = e1.ExplicitListingSet(h, l2)
     g = ["%rax", "%rbx", "%eax", "%ebx", "%ax"]
-    ls["e4"] = e1.ExplicitListingSet(h, [[("mov", [a, b]), ("mov", [c, d])] for a in g[:2] for b in g[:2] for c in g for d in g])
+    l4 = [[("mov", [a, b]), ("mov", [c, d])] for a in g[:2] for b in g[:2] for c in g for d in g]
+    ls["e4"] = e1.ExplicitListingSet(h, l4 + [[("push", ["%rax"])] + x for x in l4])
     return ls
 
 
